@@ -136,10 +136,15 @@ def run_shard(spec) -> Result:
         flavours = ("dist", "boundary", "random")
         for (pfx, op, b2) in enc.shard_heads(spec):
             for fl in flavours:
-                case = states.build_case(r, pfx, op, b2, fl, small_payload=(fl == "dist"))
+                # the "dist" flavour is kept clear of the two widest known mechanisms (ignored address nibble set, upper
+                # F bits set) so that every head has at least one case in which any OTHER divergence is visible
+                case = states.build_case(r, pfx, op, b2, fl, small_payload=(fl == "dist"),
+                                         canonical=True if fl == "dist" else None)
                 if case is None:
                     res.count("rejected")
                     break
+                if fl == "dist":
+                    case["regs"]["FHI"] = 0
                 batch.append(case)
             if len(batch) >= BATCH:
                 run_batch(res, batch)
